@@ -70,6 +70,10 @@ CHECKS = {
    text="add_to_path's stop/success rule proved for all inputs; the LAMMPS frame-consumption loop verified with a ghost frame index for any number of ready frames (frame k evaluated with its own positions, velocities, box; stored config (file,k)) -- this refuted the original tree (fix a417b25); the LAMMPS failure statement raises iff exit code != 0 and not terminated by us; calculate_order applies the velocity-reversal flag (E2); TurtleMD loop natively (first frame, stored = recomputed orders, stop rule).",
    note="External programs and integrators not verified. Not covered: CP2K/GROMACS/ASE loops, their process clean-up, time-reversal retrace. The reader's two lists are assumed aligned (bounded evidence under C13).",
    design="5/C12"),
+ "C14": dict(level="other", technique=E1 + "; delete_old bookkeeping as an inductive step on the real treat_output over abstract states (symnp harness); store/load by a bounded native round trip",
+   text="_generate_file_names proved for all path lengths (every frame -> join(target, basename(source)) with its index, one destination per source file, only referenced files moved); the delete_old block removes exactly the oldest queued path's files and only when the queue is full, never files of a live, initial or just-replaced path (N=2,3, all queue lengths, numbering variants); PathStorage.output + load_path round trip (multi-file, reversed, revisited files, missing energies, index None) natively.",
+   note="os.path functions uninterpreted; whitespace-free file names and distinct basenames assumed; 6-decimal text values bounded only.",
+   design="5/C14"),
 }
 NA = {
  "C01": "statistical convergence of an estimator over random histories; no pre/postcondition, invariant or lemma over function contracts expresses or decides it (DESIGN 5/C01). Its deterministic ingredients are decided under C02, C04, C09, C10.",
